@@ -1,6 +1,6 @@
 SPECIFICATION CSpec
 CONSTANTS
-  Addr = {"a1", "a2"}
+  Addr = {"a1"}
   Node = {"n1", "n2"}
   Procs = {1, 2, 3}
 INVARIANTS TypeOK Partition AnswersAgree
